@@ -117,6 +117,9 @@ func (w *World) handleCNI(t *core.Task, r *core.Req) core.Resp {
 			c.Invs = append(c.Invs, inv)
 		}
 		w.S.Stat("plugin." + strings.ToLower(inv.Cmd))
+		if w.S.TraceOn {
+			w.S.Logf("plugin %s %s if=%s fail=%v stdin=%s", inv.Cmd, path.Base(inv.Plugin), inv.IfName, inv.Failed, inv.Stdin)
+		}
 		if w.armed("C12") && c != nil && rq != nil {
 			w.oracleC12Invocation(rq, inv)
 		}
